@@ -1,6 +1,17 @@
-(** C18 — Distance functions obey the metric laws the indexes rely on. *)
+(** C18 — Distance functions obey the metric laws the indexes rely on.
+
+    Vectors are lists of float32 bit patterns; [wfv v] says every component is a 32-bit pattern
+    (0 <= b < 2^32, NaNs and infinities included), [finv v] that every component is a finite
+    number.  Statements are about the bit-exact model of distance.go (Model/Distance.v), which is
+    compared with the code bit for bit on every run (checkers 1801-1806).
+
+    NOT proved here (float-tolerance forms, evaluated on the implementation's outputs at every run
+    by checkers 1802-1804 instead): the triangle inequality, squared-Euclidean = Euclidean^2,
+    cosine = 1 - cos(angle), scale invariance, "in-place preprocessing yields a unit vector". *)
 From Coq Require Import ZArith List Bool.
+From Coq Require Import Floats.SpecFloat.
 From Comet Require Import Base.FBits Model.Distance.
+From Comet Require Import Proofs.FloatBits Proofs.FloatOrder Proofs.DistanceP.
 Import ListNotations.
 Open Scope Z_scope.
 
@@ -15,5 +26,63 @@ Theorem C18_l2_is_sqrt_l2sq : forall a b, dist L2 a b = F32.sqrt (dist L2Sq a b)
 Proof. reflexivity. Qed.
 Print Assumptions C18_l2_is_sqrt_l2sq.
 
+(** every distance kind is symmetric, bit for bit, on all inputs (NaN / infinity included) *)
+Theorem C18_symmetric : forall m a b, wfv a -> wfv b -> dist m a b = dist m b a.
+Proof. exact dist_sym. Qed.
+Print Assumptions C18_symmetric.
+
+(** Euclidean and squared-Euclidean distances are never below zero (Go's [d < 0] is false) ... *)
+Theorem C18_euclidean_nonneg : forall a b, wfv a -> wfv b ->
+  F32.ltb (dist L2 a b) F32.zero = false /\ F32.ltb (dist L2Sq a b) F32.zero = false.
+Proof. intros a b Ha Hb. split; [apply l2_nonneg|apply l2sq_nonneg]; assumption. Qed.
+Print Assumptions C18_euclidean_nonneg.
+
+(** ... and on finite vectors they are numbers (possibly +Inf on overflow), never NaN *)
+Theorem C18_euclidean_finite_inputs_not_nan : forall a b, finv a -> finv b ->
+  F32.is_nan (dist L2 a b) = false /\ F32.is_nan (dist L2Sq a b) = false.
+Proof.
+  intros a b Ha Hb. split; [apply l2_finite_inputs_not_nan|apply l2sq_finite_inputs_not_nan]; assumption.
+Qed.
+Print Assumptions C18_euclidean_finite_inputs_not_nan.
+
+(** a finite vector is at distance exactly +0 from itself *)
+Theorem C18_self_distance_zero : forall v, finv v ->
+  dist L2 v v = F32.zero /\ dist L2Sq v v = F32.zero.
+Proof. intros v Hv. split; [apply l2_self|apply l2sq_self]; assumption. Qed.
+Print Assumptions C18_self_distance_zero.
+
+(** cosine distance lies in [0, 2] whenever the dot product is a number, for ANY inputs (unit or
+    not); a NaN dot product (overflow on non-unit inputs) gives NaN, never an out-of-range number *)
+Theorem C18_cosine_range : forall a b, wfv a -> wfv b ->
+  (F32.is_nan (dot a b) = false ->
+     F32.leb F32.zero (dist Cos a b) = true /\ F32.leb (dist Cos a b) F32.two = true) /\
+  (F32.is_nan (dot a b) = true -> dist Cos a b = F32.nan).
+Proof.
+  intros a b Ha Hb. split; intros Hn; [apply cosine_range|apply cosine_nan]; assumption.
+Qed.
+Print Assumptions C18_cosine_range.
+
+(** cosine preprocessing rejects every zero vector (any mix of +0 and -0), the other kinds never reject *)
+Theorem C18_zero_vector_rejected : forall v, Forall is_zero32 v -> preprocess Cos v = None.
+Proof. exact preprocess_rejects_zero_vector. Qed.
+Print Assumptions C18_zero_vector_rejected.
+Theorem C18_preprocess_identity_otherwise : forall m v, m <> Cos -> preprocess m v = Some v.
+Proof. exact preprocess_identity_noncosine. Qed.
+Print Assumptions C18_preprocess_identity_otherwise.
+
+(** the comparisons every sort and threshold in the model uses ARE IEEE-754 comparisons of the
+    decoded values, for all 2^32 x 2^32 pairs of patterns (NaNs, signed zeros, infinities) *)
+Theorem C18_comparisons_are_ieee : forall a b, wf32 a -> wf32 b ->
+  F32.ltb a b = SFltb (F32.of_bits a) (F32.of_bits b) /\
+  F32.eqb a b = SFeqb (F32.of_bits a) (F32.of_bits b) /\
+  F32.leb a b = SFleb (F32.of_bits a) (F32.of_bits b).
+Proof. intros a b Ha Hb. split; [apply ltb32|split; [apply eqb32|apply leb32]]; assumption. Qed.
+Print Assumptions C18_comparisons_are_ieee.
+
 Example C18_example : dist L2 [F32.of_Z 3; F32.of_Z 0] [F32.of_Z 0; F32.of_Z 4] = F32.of_Z 5.
 Proof. vm_compute. reflexivity. Qed.
+(** the hypotheses are satisfiable by non-trivial vectors *)
+Example C18_hyps : finv [F32.of_Z 3; F32.of_Z 0] /\ wfv [F32.nan; F32.pinf].
+Proof.
+  split; repeat constructor; try (apply wf32_range; vm_compute; split; [discriminate|reflexivity]).
+Qed.
